@@ -62,6 +62,7 @@ Print Assumptions C14_struct_scope_nodup.
       forall names, NoDup names -> consts_ok names = true   (b)
       forall fs, fields_ok ms fs = true            (c)  ms = the methods generated for the struct
       forall names, globals_ok names = true        (d)
+      forall fs raccs, methods_ok fs raccs = true  (e)  raccs = the result-mask accessors of a function
     each witness is a schema the kernel accepts; replayed on the real generator by the check. *)
 Theorem C14_files_case_distinct_refuted : exists names, files_ok names = false.
 Proof. exact files_case_distinct_refuted. Qed.
@@ -75,11 +76,23 @@ Theorem C14_consts_nodup_refuted : exists names, NoDup names /\ consts_ok names 
 Proof. exact consts_nodup_refuted. Qed.
 Print Assumptions C14_consts_nodup_refuted.
 
+(** What WOULD make (b) hold: names that stay distinct once every non-alphanumeric character
+    (the namespace dot included) and case are dropped.  The kernel's NameCollision keeps the dot,
+    so a.foo / aFoo / a_foo pass it although they all normalise to "afoo". *)
+Theorem C14_consts_ok_if_normalized_distinct : forall names,
+  NoDup (map norm_name names) -> consts_ok names = true.
+Proof. exact consts_ok_if_normalized_distinct. Qed.
+Print Assumptions C14_consts_ok_if_normalized_distinct.
+
 Theorem C14_fields_vs_methods_refuted :
   (exists fs, fields_ok struct_methods_closed fs = false) /\
   (exists fs, fields_ok struct_methods_always fs = false).
 Proof. exact fields_vs_methods_refuted. Qed.
 Print Assumptions C14_fields_vs_methods_refuted.
+
+Theorem C14_methods_nodup_refuted : exists fs raccs, methods_ok fs raccs = false.
+Proof. exact methods_nodup_refuted. Qed.
+Print Assumptions C14_methods_nodup_refuted.
 
 Theorem C14_globals_vs_helpers_refuted : exists names, globals_ok names = false.
 Proof. exact globals_vs_helpers_refuted. Qed.
@@ -106,6 +119,10 @@ Example C14_ex_struct :
   struct_scope [Field (lit "n") AccNone false; Field (lit "x") AccFull false; Field (lit "setX") AccNone false; Field (lit "write") AccBit true]
   = (map lit ["N"; "X"; "SetX"; "Write0"]%string,
      map lit ["SetX0"; "ClearX"; "IsSetX"; "SetWrite0"; "IsSetWrite0"]%string).
+Proof. vm_compute. reflexivity. Qed.
+
+Example C14_ex_norm :
+  map norm_name [tl "a" "foo"; tl "" "aFoo"; tl "" "a_foo"; tl "a" "bar"] = map lit ["afoo"; "afoo"; "afoo"; "abar"]%string.
 Proof. vm_compute. reflexivity. Qed.
 
 Example C14_ex_ok_schema :
